@@ -119,6 +119,8 @@ type internalStruct struct {
 	SliceValuePointerNum uint32            `json:",omitempty"`
 	SliceValueType       string            `json:",omitempty"`
 	SliceValues          []*internalStruct `json:",omitempty"`
+	// the value is an array of len(SliceValues) elements, not a slice
+	IsArray bool `json:",omitempty"`
 }
 
 func internalMarshal(v any) (*internalStruct, error) {
@@ -237,6 +239,7 @@ func internalMarshal(v any) (*internalStruct, error) {
 			return nil, fmt.Errorf("unknown type: %v", rvt)
 		}
 		ret.SliceValueType = key
+		ret.IsArray = rt.Kind() == reflect.Array
 
 		length := rv.Len()
 		ret.SliceValues = make([]*internalStruct, length)
@@ -372,6 +375,20 @@ func internalUnmarshal(v *internalStruct) (any, error) {
 		return nil, fmt.Errorf("unknown type: %v", v.SliceValueType)
 	}
 	rvt = resolvePointerNum(v.SliceValuePointerNum, rvt)
+
+	if v.IsArray {
+		result, dResult := createValueFromType(resolvePointerNum(v.PointerNum, reflect.ArrayOf(len(v.SliceValues), rvt)))
+		for i, internalValue := range v.SliceValues {
+			value, err := internalUnmarshal(internalValue)
+			if err != nil {
+				return nil, fmt.Errorf("unmarshal array[%s] fail: %v", v.SliceValueType, err)
+			}
+			if value != nil {
+				dResult.Index(i).Set(reflect.ValueOf(value))
+			}
+		}
+		return result.Interface(), nil
+	}
 
 	// todo: if all slice values are based, can use unmarshal instead of internalUnmarshal
 	result, dResult := createValueFromType(resolvePointerNum(v.PointerNum, reflect.SliceOf(rvt)))
